@@ -81,7 +81,8 @@ OPTION_KEYS = [
     "inline_functions",
 ]
 REGEXES = [None, "s", "a[.]y", "s|a[.]y"]  # values of eliminable_variable_expression (s and a.y are algebraic variables of M)
-VERSIONS = ["1.0", "1.1", "2.0"]
+# release versions and development versions of one release (same public part, different local part)
+VERSIONS = ["1.0", "1.1", "2.0", "1.0+3.gaaaaaaa", "1.0+4.gbbbbbbb"]
 MODES = ("cache", "codegen")
 
 # key -> (folder, relative path, number of variants)
@@ -710,7 +711,7 @@ def make_machine(ctx, memo, budget):
             if then_transfer:
                 self._transfer("cache")
 
-        @rule(v=st.integers(0, 2), then_transfer=st.booleans())
+        @rule(v=st.integers(0, len(VERSIONS) - 1), then_transfer=st.booleans())
         def set_version(self, v, then_transfer):
             if self.dead:
                 return
